@@ -422,6 +422,23 @@ pub struct Line {
     pub replaced: usize,
     pub disc_break: bool,
     pub prune_stopped_at_break: bool,
+    /// Index in `items` of the node TeX leaves behind at the break although it no longer does
+    /// anything there: the emptied discretionary, the penalty, the zero-width kern or math node.
+    /// The property does not ask for it; a line is also accepted without that item.
+    pub optional: Option<usize>,
+}
+
+impl Line {
+    /// `got` is this line as TeX builds it, or the same without the inert break item.
+    pub fn accepts(&self, got: &[Item]) -> bool {
+        if got == &self.items[..] {
+            return true;
+        }
+        match self.optional {
+            Some(i) if got.len() + 1 == self.items.len() => got[..i] == self.items[..i] && got[i..] == self.items[i + 1..],
+            _ => false,
+        }
+    }
 }
 
 /// `post_line_break` §877-890 for the breakpoints `breaks` (indices into `list`; the last one is
@@ -456,6 +473,7 @@ pub fn post_line_break(list: &[Item], breaks: &[usize], p: &ParParams, sw: PlbSw
         let mut disc_break = false;
         let mut post_disc_break = false;
         let mut replaced = 0;
+        let mut optional = None;
         let mut next;
         if !last {
             match &list[b] {
@@ -469,6 +487,7 @@ pub fn post_line_break(list: &[Item], breaks: &[usize], p: &ParParams, sw: PlbSw
                     if b + 1 + replace > list.len() {
                         return Err("replace count runs past the end of the list".into());
                     }
+                    optional = Some(items.len());
                     items.push(Item::Disc { pre: vec![], post: vec![], replace: 0 });
                     items.extend(pre.iter().cloned());
                     pending_post = post.clone();
@@ -478,14 +497,17 @@ pub fn post_line_break(list: &[Item], breaks: &[usize], p: &ParParams, sw: PlbSw
                     next = b + 1 + replace;
                 }
                 Item::Kern { kind, .. } => {
+                    optional = Some(items.len());
                     items.push(Item::Kern { w: 0, kind: *kind });
                     next = b + 1;
                 }
                 Item::Math(m) => {
+                    optional = Some(items.len());
                     items.push(Item::Math(*m));
                     next = b + 1;
                 }
                 Item::Penalty(q) => {
+                    optional = Some(items.len());
                     items.push(Item::Penalty(*q));
                     next = b + 1;
                 }
@@ -538,7 +560,7 @@ pub fn post_line_break(list: &[Item], breaks: &[usize], p: &ParParams, sw: PlbSw
                 pruned += 1;
             }
         }
-        out.push(Line { items, width, shift, packed, penalty_after, penalty_sum, pruned, carried_post, replaced, disc_break, prune_stopped_at_break: stopped_at_break });
+        out.push(Line { items, width, shift, packed, penalty_after, penalty_sum, pruned, carried_post, replaced, disc_break, prune_stopped_at_break: stopped_at_break, optional });
         cursor = next;
     }
     if cursor != list.len() {
@@ -566,6 +588,8 @@ pub struct Unbroken {
 ///     discretionary `disc{pre}{post}{r replaced items}` found at that place of the list,
 ///   * a line that ends at a glue item gets that glue item back, a line that ends with a penalty or
 ///     a zero-width kern/math item is matched with the penalty/kern/math item of the list,
+///   * the inert item TeX leaves at the break (the emptied discretionary node, the penalty, the
+///     zero-width kern/math item) may also be absent from the line: the property does not ask for it,
 ///   * and after such a break (no post-break material) zero or more items of the list, all
 ///     discardable, may be missing.
 /// Returns the recovered breakpoints, or a description of the first place where no reading fits.
@@ -641,10 +665,9 @@ fn rec(list: &[Item], contents: &[&[Item]], k: usize, cursor: usize, pending_pos
     let mut cands: Vec<(usize, usize, &[Item], bool, bool)> = vec![];
     let n = rest.len();
     // at a glue item: the whole rest is list material, the next list item is glue
-    if tail.len() > n && rest == &tail[..n] {
-        if let Item::Glue(_) = tail[n] {
-            cands.push((cursor + n, cursor + n + 1, &[], true, false));
-        }
+    // (a penalty, explicit kern or math item at which the line was broken may also be absent)
+    if tail.len() > n && rest == &tail[..n] && (matches!(tail[n], Item::Glue(_) | Item::Penalty(_) | Item::Math(_)) || matches!(tail[n], Item::Kern { kind: KernKind::Explicit, .. })) {
+        cands.push((cursor + n, cursor + n + 1, &[], true, false));
     }
     // at a penalty / kern / math item that stays at the end of the line
     if n >= 1 && tail.len() >= n && rest[..n - 1] == tail[..n - 1] {
@@ -669,6 +692,16 @@ fn rec(list: &[Item], contents: &[&[Item]], k: usize, cursor: usize, pending_pos
                     if rest[m + 1..] == dpre[..] && cursor + m + 1 + r <= list.len() {
                         cands.push((cursor + m, cursor + m + 1 + r, &dpost[..], dpost.is_empty(), false));
                     }
+                }
+            }
+        }
+    }
+    // at a discretionary whose emptied node was not kept: rest = material, pre-break
+    for m in 0..=n {
+        if tail.len() > m && rest[..m] == tail[..m] {
+            if let Item::Disc { pre: dpre, post: dpost, replace: r } = &tail[m] {
+                if rest[m..] == dpre[..] && cursor + m + 1 + r <= list.len() {
+                    cands.push((cursor + m, cursor + m + 1 + r, &dpost[..], dpost.is_empty(), false));
                 }
             }
         }
